@@ -20,8 +20,10 @@ struct vf_shared {
 	int		n_outcomes;
 	char		outcome_name[VF_MAX_OUTCOMES][64];
 	atomic_long	outcome_cnt[VF_MAX_OUTCOMES];
-	atomic_long	n_viol;			/* total reported (may exceed VF_MAX_VIOLS) */
-	char		viol[VF_MAX_VIOLS][VF_VIOL_LEN];
+	atomic_long	n_viol;			/* total reported */
+	int		n_sigs;
+	struct { char key[240]; atomic_long count; atomic_int ncases; char cases[VF_CASES_PER_SIG][VF_VIOL_LEN]; } sig[VF_MAX_SIGS];
+	atomic_long	sig_overflow;
 	atomic_int	n_samples;
 	char		sample[VF_MAX_SAMPLES][VF_VIOL_LEN];
 	atomic_int	n_incomplete;
@@ -137,13 +139,29 @@ void vf_sample (const char *fmt, ...)
 void vf_viol (const char *prop, const char *sig, const char *casefmt, ...)
 {
 	va_list ap;
-	char cs[VF_VIOL_LEN];
-	long i = atomic_fetch_add (&S->n_viol, 1);
-	if (i >= VF_MAX_VIOLS) return;
+	char key[240];
+	int i, n, c;
+	atomic_fetch_add (&S->n_viol, 1);
+	snprintf (key, sizeof key, "%s %s", prop, sig);
+	n = S->n_sigs;
+	for (i = 0; i < n; i++) if (!strcmp (S->sig[i].key, key)) break;
+	if (i == n) {
+		lock ();
+		for (i = 0; i < S->n_sigs; i++) if (!strcmp (S->sig[i].key, key)) break;
+		if (i == S->n_sigs) {
+			if (i >= VF_MAX_SIGS) { unlock (); atomic_fetch_add (&S->sig_overflow, 1); return; }
+			snprintf (S->sig[i].key, sizeof S->sig[i].key, "%s", key);
+			__sync_synchronize ();
+			S->n_sigs = i + 1;
+		}
+		unlock ();
+	}
+	atomic_fetch_add (&S->sig[i].count, 1);
+	c = atomic_fetch_add (&S->sig[i].ncases, 1);
+	if (c >= VF_CASES_PER_SIG) { atomic_store (&S->sig[i].ncases, VF_CASES_PER_SIG); return; }
 	va_start (ap, casefmt);
-	vsnprintf (cs, sizeof cs, casefmt, ap);
+	vsnprintf (S->sig[i].cases[c], VF_VIOL_LEN, casefmt, ap);
 	va_end (ap);
-	snprintf (S->viol[i], VF_VIOL_LEN, "%s %s :: %s", prop, sig, cs);
 }
 long vf_nviol (void) { return atomic_load (&S->n_viol); }
 
@@ -217,6 +235,8 @@ static void worker_main (int me, long nitems, vf_item_fn fn, void *arg, int item
 	long it;
 	g_me = me;
 	signal (SIGALRM, on_alarm);
+	/* the library chats on stdout/stderr (OF_PRINT_ERROR, blocking_struct); results travel through the shared area */
+	if (!getenv ("VF_KEEP_OUTPUT")) { freopen ("/dev/null", "w", stdout); freopen ("/dev/null", "w", stderr); }
 	for (;;) {
 		it = atomic_fetch_add (&S->next_item, 1);
 		if (it >= nitems) break;
@@ -292,6 +312,7 @@ int vf_run_isolated (vf_item_fn fn, long item, void *arg, int timeout_s, char *a
 	p = fork ();
 	if (p == 0) {
 		signal (SIGALRM, on_alarm);
+		if (!getenv ("VF_KEEP_OUTPUT")) { freopen ("/dev/null", "w", stdout); freopen ("/dev/null", "w", stderr); }
 		if (timeout_s > 0) alarm ((unsigned) timeout_s);
 		fn (item, arg);
 		fflush (NULL);
@@ -315,9 +336,13 @@ void vf_finish (void)
 	for (i = 0; i < atomic_load (&S->n_samples) && i < VF_MAX_SAMPLES; i++) printf ("SAMPLE %s\n", S->sample[i]);
 	for (i = 0; i < atomic_load (&S->n_notes) && i < 64; i++) printf ("NOTE %s\n", S->note[i]);
 	for (i = 0; i < atomic_load (&S->n_incomplete) && i < 64; i++) printf ("INCOMPLETE %s\n", S->incomplete[i]);
-	for (i = 0; i < nv && i < VF_MAX_VIOLS; i++) printf ("VIOL %s\n", S->viol[i]);
+	for (i = 0; i < S->n_sigs; i++) {
+		int j, nc = atomic_load (&S->sig[i].ncases);
+		printf ("VCOUNT %s %ld\n", S->sig[i].key, atomic_load (&S->sig[i].count));
+		for (j = 0; j < nc && j < VF_CASES_PER_SIG; j++) printf ("VIOL %s :: %s\n", S->sig[i].key, S->sig[i].cases[j]);
+	}
 	printf ("STAT violations_total %ld\n", nv);
-	if (nv > VF_MAX_VIOLS) printf ("NOTE %ld violations beyond the first %d not listed\n", nv - VF_MAX_VIOLS, VF_MAX_VIOLS);
+	if (atomic_load (&S->sig_overflow)) printf ("INCOMPLETE %ld violations with further distinct signatures beyond the first %d signatures not listed\n", atomic_load (&S->sig_overflow), VF_MAX_SIGS);
 	printf ("DONE\n");
 	fflush (stdout);
 }
